@@ -320,7 +320,8 @@ Definition kof (keys : list nat) (e : nat) : nat := nth e keys 0.
                                 response.py authn_response()/response_factory() do per message) ---- *)
 Inductive dstep := DInstall (p k stamp how : nat) | DCreate (p : nat) | DCall (j : nat)
   | DConf (p how parent : nat) | DBuild (c : nat) | DCtx (c : nat)
-  | DWrite (dir base p : nat) | DUnlink (dir base : nat) | DLoadFile (dir base api spell : nat) | DFactory (p : nat).
+  | DWrite (dir base p : nat) | DUnlink (dir base : nat) | DLoadFile (dir base api spell : nat) | DFactory (p : nat)
+  | DWritePkg (dir base p : nat).
 
 Definition fsys := list (nat * (nat * nat)).     (* path -> (key pair installed there, mtime); newest first *)
 
@@ -342,33 +343,44 @@ Definition ocons {A} (o : option A) (l : list A) : list A := match o with Some x
 (* ---- where a CONFIGURATION comes from (config.py Config.load / load_file / _load, config_factory; entity.py
      Entity.__init__(config= | config_file=)).  Besides a dict (DCreate: SPConfig().load(dict); DFactory:
      config_factory(type, dict) = load(deepcopy(dict))) and a Config object (DConf / DBuild) a configuration is a
-     python FILE dir/base.py that binds CONFIG:
+     python FILE dir/base.py, or a PACKAGE directory dir/base/__init__.py, that binds CONFIG:
        DWrite dir base p      the file dir/base.py is written (or edited): its CONFIG names key_file / cert_file at path p
        DUnlink dir base       the file is removed
+       DWritePkg dir base p   the package dir/base/__init__.py is written (or edited); packages are not removed
        DLoadFile dir base api spell
                               an entity is built from it; api = 0 <Class>Config().load_file(f) + entity(config=),
                               1 config_factory(type, f) + entity(config=), 2 entity(config_file=f); spell = how f is
-                              written: 0 absolute, 1 absolute + ".py", 2 relative to the working directory, 3 relative + ".py"
-                              (load_file strips ".py"; os.path.split gives the directory `head` and the base name `tail`;
-                              head = "" is the working directory) - neither reaches the loader: it gets (dir, base).
-     Config._load(dir/base) AS IT IS NOW (after ca0d12ee):
+                              written: 0 absolute, 1 absolute + ".py", 2 relative to the working directory, 3 relative +
+                              ".py", 4 / 5 the BARE name (+ ".py"): relative, and the working directory IS dir.
+                              load_file strips ".py"; os.path.split gives the directory `head` and the base name
+                              `tail`; head = "" (bare) is the working directory.  Of all this the loader sees (dir,
+                              base) and whether the name was bare.
+     Config._load(dir/base) AS IT IS NOW (after ca0d12ee and 581b4f03):
        sys.path.insert(0, dir)                                  [spath; "." for head = "" unless already in front]
        mod = importlib.import_module(base)                      sys.modules is keyed by the BASE NAME alone: a module
                                                                 loaded earlier under that name is answered as it was
                                                                 executed THEN [mods]; otherwise the directories of
                                                                 sys.path are searched in order - dir first, then the
-                                                                directories of EARLIER loads - the first base.py found
-                                                                is executed and registered; none: ModuleNotFoundError
+                                                                directories of EARLIER loads - in each the package
+                                                                base/ before the file base.py; what is found is
+                                                                executed and registered; none: ModuleNotFoundError
        wanted = abspath(dir)/base.py ; found = mod.__file__
        if found and isfile(wanted) and not samefile(found, wanted):   the module found is ANOTHER file than the one asked
            mod = <wanted executed now, NOT registered>               for: that file itself is executed
                                                                 (samefile raises when the file of the module found
                                                                  has been removed meanwhile)
+       elif head and found and not isfile(wanted):              [581b4f03] a directory was named and the file is not
+           if found lies outside abspath(head)/: raise ModuleNotFoundError    there: only a module from THAT directory
+                                                                (its package, or its file as loaded before it was
+                                                                 removed) is the configuration asked for
        return mod                                               load_file: self.load(copy.deepcopy(mod.CONFIG))
      so that (i) a file loaded before and EDITED since is answered from sys.modules as it was (stale; the OWN file's
-     earlier content), (ii) a file that does NOT exist is answered by a module of the same base name loaded before from
-     another directory, or by the base.py of a directory left on sys.path by an earlier load (finding C20-F3).
-     BEFORE ca0d12ee (fixed = false, `_v0`): return importlib.import_module(base) - whatever directory it came from. ---- *)
+     earlier content), (ii) a BARE name whose file does not exist is still answered by whatever module of that name
+     Python finds (it cannot be told from a module meant to be found on sys.path).
+     V1 = after ca0d12ee, before 581b4f03: no third branch (finding C20-F3: a file that does not exist answered by another
+     directory's module).  V0 = before ca0d12ee: return importlib.import_module(base) - wherever it came from. ---- *)
+Inductive lver := V0 | V1 | V2.
+
 Definition cfsys := list ((nat * nat) * option nat).     (* (directory, base name) -> the path its CONFIG names; newest first *)
 
 Fixpoint cf_read (c : cfsys) (d b : nat) : option nat :=
@@ -377,52 +389,71 @@ Fixpoint cf_read (c : cfsys) (d b : nat) : option nat :=
   | ((d', b'), v) :: r => if Nat.eqb d' d && Nat.eqb b' b then v else cf_read r d b
   end.
 
-(* sys.modules: base name -> (directory it was found in, the path its CONFIG named when it was executed) *)
-Definition modtab := list (nat * (nat * nat)).
+(* a module as importlib knows it: (directory it was found in, is it the package, the path its CONFIG named when it
+   was executed) *)
+Definition fmod := (nat * bool * nat)%type.
 
-Fixpoint mod_find (m : modtab) (b : nat) : option (nat * nat) :=
+(* sys.modules: base name -> module *)
+Definition modtab := list (nat * fmod).
+
+Fixpoint mod_find (m : modtab) (b : nat) : option fmod :=
   match m with
   | [] => None
   | (b', x) :: r => if Nat.eqb b' b then Some x else mod_find r b
   end.
 
-(* the first directory of sys.path that holds base.py *)
-Fixpoint path_find (c : cfsys) (sp : list nat) (b : nat) : option (nat * nat) :=
+(* the first directory of sys.path that holds the package base/ or the file base.py (the package wins) *)
+Fixpoint path_find (c k : cfsys) (sp : list nat) (b : nat) : option fmod :=
   match sp with
   | [] => None
-  | d :: r => match cf_read c d b with Some p => Some (d, p) | None => path_find c r b end
+  | d :: r => match cf_read k d b with
+              | Some p => Some (d, true, p)
+              | None => match cf_read c d b with Some p => Some (d, false, p) | None => path_find c k r b end
+              end
   end.
 
-Record lstate := { cfiles : cfsys; mods : modtab; spath : list nat }.
+(* cfiles: the files dir/base.py; pkgs: the packages dir/base/__init__.py *)
+Record lstate := { cfiles : cfsys; pkgs : cfsys; mods : modtab; spath : list nat }.
 
-Definition lstate0 : lstate := {| cfiles := []; mods := []; spath := [] |}.
+Definition lstate0 : lstate := {| cfiles := []; pkgs := []; mods := []; spath := [] |}.
 
-(* the module handed back once import_module has answered (d0, c0): None = an exception *)
-Definition answer (fixed : bool) (c : cfsys) (d b : nat) (found : nat * nat) : option nat :=
-  let '(d0, c0) := found in
-  if fixed then
-    match cf_read c d b with
-    | Some cnow => if Nat.eqb d0 d then Some c0
-                   else match cf_read c d0 b with Some _ => Some cnow | None => None end
-    | None => Some c0
+Definition is_bare (spell : nat) : bool := 4 <=? spell.
+
+(* the module handed back once import_module has answered `found`: None = an exception *)
+Definition answer (v : lver) (st : lstate) (d b : nat) (bare : bool) (found : fmod) : option nat :=
+  let '(d0, pk0, c0) := found in
+  match v with
+  | V0 => Some c0
+  | _ =>
+    match cf_read (cfiles st) d b with
+    | Some cnow => if negb pk0 && Nat.eqb d0 d then Some c0
+                   else match cf_read (if pk0 then pkgs st else cfiles st) d0 b with Some _ => Some cnow | None => None end
+    | None => match v with
+              | V2 => if bare || Nat.eqb d0 d then Some c0 else None
+              | _ => Some c0
+              end
     end
-  else Some c0.
+  end.
+
+Definition with_path (st : lstate) (sp : list nat) (m : modtab) : lstate :=
+  {| cfiles := cfiles st; pkgs := pkgs st; mods := m; spath := sp |}.
 
 (* Config._load(dir/base): the path the CONFIG handed back names (None: it raises), and the loader state afterwards *)
-Definition load_module (fixed : bool) (st : lstate) (d b : nat) : option nat * lstate :=
+Definition load_module (v : lver) (st : lstate) (d b : nat) (bare : bool) : option nat * lstate :=
   let sp := d :: spath st in
   match mod_find (mods st) b with
-  | Some found => (answer fixed (cfiles st) d b found, {| cfiles := cfiles st; mods := mods st; spath := sp |})
+  | Some found => (answer v st d b bare found, with_path st sp (mods st))
   | None =>
-      match path_find (cfiles st) sp b with
-      | Some found => (answer fixed (cfiles st) d b found,
-                       {| cfiles := cfiles st; mods := (b, found) :: mods st; spath := sp |})
-      | None => (None, {| cfiles := cfiles st; mods := mods st; spath := sp |})
+      match path_find (cfiles st) (pkgs st) sp b with
+      | Some found => (answer v st d b bare found, with_path st sp ((b, found) :: mods st))
+      | None => (None, with_path st sp (mods st))
       end
   end.
 
 Definition cf_write (st : lstate) (d b : nat) (v : option nat) : lstate :=
-  {| cfiles := ((d, b), v) :: cfiles st; mods := mods st; spath := spath st |}.
+  {| cfiles := ((d, b), v) :: cfiles st; pkgs := pkgs st; mods := mods st; spath := spath st |}.
+Definition pkg_write (st : lstate) (d b : nat) (p : nat) : lstate :=
+  {| cfiles := cfiles st; pkgs := ((d, b), Some p) :: pkgs st; mods := mods st; spath := spath st |}.
 
 (* an entity built from a configuration FILE always has a slot: (0, 0) when the loader or the constructor raised *)
 Definition build_slot (fs : fsys) (oc : option nat) : nat * nat :=
@@ -433,33 +464,37 @@ Definition build_slot (fs : fsys) (oc : option nat) : nat * nat :=
 
 (* per entity, in creation order: (key pair of sec_backend.key, key pair of the certificate my_cert);
    cf = the path each configuration object names now; ld = the state of the module loader *)
-Fixpoint loaded_gen (fixed : bool) (fs : fsys) (cf : list nat) (ld : lstate) (d : list dstep) : list (nat * nat) :=
+Fixpoint loaded_gen (v : lver) (fs : fsys) (cf : list nat) (ld : lstate) (d : list dstep) : list (nat * nat) :=
   match d with
   | [] => []
-  | DInstall p k s _ :: r => loaded_gen fixed ((p, (k, s)) :: fs) cf ld r
-  | DCreate p :: r => ocons (build_at fs p) (loaded_gen fixed fs cf ld r)
-  | DCall _ :: r => loaded_gen fixed fs cf ld r
+  | DInstall p k s _ :: r => loaded_gen v ((p, (k, s)) :: fs) cf ld r
+  | DCreate p :: r => ocons (build_at fs p) (loaded_gen v fs cf ld r)
+  | DCall _ :: r => loaded_gen v fs cf ld r
   | DConf p how parent :: r =>
-      if Nat.eqb how 3 then loaded_gen fixed fs (upd parent p cf) ld r      (* re-pointed; no such object: nothing happens *)
-      else loaded_gen fixed fs (cf ++ [p]) ld r                             (* a new object, whatever it was derived from *)
+      if Nat.eqb how 3 then loaded_gen v fs (upd parent p cf) ld r      (* re-pointed; no such object: nothing happens *)
+      else loaded_gen v fs (cf ++ [p]) ld r                             (* a new object, whatever it was derived from *)
   | DBuild c :: r =>
       match nth_error cf c with
-      | Some p => ocons (build_at fs p) (loaded_gen fixed fs cf ld r)
-      | None => loaded_gen fixed fs cf ld r
+      | Some p => ocons (build_at fs p) (loaded_gen v fs cf ld r)
+      | None => loaded_gen v fs cf ld r
       end
-  | DCtx _ :: r => loaded_gen fixed fs cf ld r
-  | DWrite dr b p :: r => loaded_gen fixed fs cf (cf_write ld dr b (Some p)) r
-  | DUnlink dr b :: r => loaded_gen fixed fs cf (cf_write ld dr b None) r
-  | DLoadFile dr b _ _ :: r =>
-      let '(oc, ld') := load_module fixed ld dr b in
-      build_slot fs oc :: loaded_gen fixed fs cf ld' r
-  | DFactory p :: r => ocons (build_at fs p) (loaded_gen fixed fs cf ld r)
+  | DCtx _ :: r => loaded_gen v fs cf ld r
+  | DWrite dr b p :: r => loaded_gen v fs cf (cf_write ld dr b (Some p)) r
+  | DUnlink dr b :: r => loaded_gen v fs cf (cf_write ld dr b None) r
+  | DWritePkg dr b p :: r => loaded_gen v fs cf (pkg_write ld dr b p) r
+  | DLoadFile dr b _ sp :: r =>
+      let '(oc, ld') := load_module v ld dr b (is_bare sp) in
+      build_slot fs oc :: loaded_gen v fs cf ld' r
+  | DFactory p :: r => ocons (build_at fs p) (loaded_gen v fs cf ld r)
   end.
 
-Definition loaded := loaded_gen true.        (* the loader as it is now *)
-Definition loaded_v0 := loaded_gen false.    (* the loader before ca0d12ee *)
+Definition loaded := loaded_gen V2.        (* the loader as it is now *)
+Definition loaded_v1 := loaded_gen V1.     (* after ca0d12ee, before 581b4f03 *)
+Definition loaded_v0 := loaded_gen V0.     (* before ca0d12ee *)
 
 Definition deploy_keys (d : list dstep) : list nat := map fst (loaded [] [] lstate0 d).
 Definition deploy_certs (d : list dstep) : list nat := map snd (loaded [] [] lstate0 d).
 Definition deploy_keys_v0 (d : list dstep) : list nat := map fst (loaded_v0 [] [] lstate0 d).
 Definition deploy_certs_v0 (d : list dstep) : list nat := map snd (loaded_v0 [] [] lstate0 d).
+Definition deploy_keys_v1 (d : list dstep) : list nat := map fst (loaded_v1 [] [] lstate0 d).
+Definition deploy_certs_v1 (d : list dstep) : list nat := map snd (loaded_v1 [] [] lstate0 d).
